@@ -107,6 +107,7 @@ def c08():
             base = rnd.randrange(1, 1 << 20)
             base -= base % a
             lens |= {base - 1, base, base + 1}
+        lens |= {(1 << 20) - 1, 1 << 20, 65536, 65537, 4096, 4097}
         for L in sorted(lens):
             if L < 0:
                 continue
